@@ -131,6 +131,16 @@ class _Case:
             self.cmp('MPO.as_matrix', 'dense', m, ref, scale, what + ' via as_matrix()')
 
 
+def _scramble(r):
+    """overwrite a *result* object in place (tensors and quantum numbers): the operands must not notice"""
+    try:
+        for T in r.A:
+            T *= 0
+        r.zero_qnumbers()
+    except Exception:       # noqa: BLE001 - best effort, the result object may be malformed already
+        pass
+
+
 def _alpha(rng, var):
     if var == '+':
         return 1
@@ -162,6 +172,11 @@ def run_case(c):
             good, r = k.call('add_mps', ptn.mps.add_mps, a, b, al)
         if good:
             k.vec_of('add_mps', r, da + al * db, _nrm(da) + abs(al) * _nrm(db), f'a + ({al})*b' + (' [L==1 branch]' if L == 1 else ''))
+            # history: overwrite the result in place, then use the operands again
+            _scramble(r)
+            good, r = k.call('add_mps', ptn.mps.add_mps, b, a, al)
+            if good:
+                k.vec_of('add_mps', r, db + al * da, _nrm(db) + abs(al) * _nrm(da), f'b + ({al})*a after the first sum was overwritten in place')
     elif kind == 'add_mpo':
         q0, q1 = k.sector(True)
         a, b = k.mpo(q0, q1), k.mpo(q0, q1)
@@ -176,6 +191,10 @@ def run_case(c):
             good, r = k.call('add_mpo', ptn.mpo.add_mpo, a, b, al)
         if good:
             k.mat_of('add_mpo', r, da + al * db, _nrm(da) + abs(al) * _nrm(db), f'A + ({al})*B')
+            _scramble(r)
+            good, r = k.call('add_mpo', ptn.mpo.add_mpo, b, a, al)
+            if good:
+                k.mat_of('add_mpo', r, db + al * da, _nrm(db) + abs(al) * _nrm(da), f'B + ({al})*A after the first sum was overwritten in place')
     elif kind == 'mul_mpo':
         a, b = k.mpo(*k.sector(True)), k.mpo(*k.sector(True))
         objs = [a, b]
@@ -183,6 +202,10 @@ def run_case(c):
         good, r = k.call('multiply_mpo', lambda: a @ b)
         if good:
             k.mat_of('multiply_mpo', r, da @ db, _nrm(da) * _nrm(db), 'A @ B')
+            _scramble(r)
+            good, r = k.call('multiply_mpo', lambda: a @ b)
+            if good:
+                k.mat_of('multiply_mpo', r, da @ db, _nrm(da) * _nrm(db), 'A @ B after the first product was overwritten in place')
     elif kind == 'apply':
         a, s = k.mpo(*k.sector(True)), k.mps(*k.sector())
         objs = [a, s]
@@ -190,6 +213,10 @@ def run_case(c):
         good, r = k.call('apply_operator', ptn.apply_operator, a, s)
         if good:
             k.vec_of('apply_operator', r, da @ ds, _nrm(da) * _nrm(ds), 'A psi')
+            _scramble(r)
+            good, r = k.call('apply_operator', ptn.apply_operator, a, s)
+            if good:
+                k.vec_of('apply_operator', r, da @ ds, _nrm(da) * _nrm(ds), 'A psi after the first result was overwritten in place')
     elif kind == 'identity':
         scale = {'one': 1, 'scale': float(rng.uniform(0.3, 2.0)) * (-1 if rng.random() < 0.3 else 1),
                  'complex_scale': complex(rng.normal(), rng.normal())}[var]
